@@ -395,6 +395,11 @@ func (x *XRefParser) parseXRefStream() (*XRefTable, error) {
 			return nil, fmt.Errorf("invalid /W element type: %T", val)
 		}
 		w[i] = int(intVal)
+		// Field widths come from the file: a negative or absurd width would
+		// slice outside the entry
+		if w[i] < 0 || w[i] > 8 {
+			return nil, fmt.Errorf("invalid /W entry: %d", w[i])
+		}
 	}
 
 	// Parse entries from binary data
